@@ -284,6 +284,44 @@ func (p *Program) prove(pr *Prover, re *regexp.Regexp, prop string, verbose bool
 			if ax.Kind != "lemma" {
 				continue
 			}
+			if hasProp(ax.Props, "induct") {
+				// proved by structural induction on the ghost datatype (cvc5 --quant-ind): the formula is kept quantified
+				// and the recursive definitions it uses are given as quantified equations
+				ivc := newVC(p.u, p.cs, "lemmas")
+				ivc.declare("R0", "Bool")
+				ivc.assume("R0")
+				env := &SpecEnv{vc: ivc, vars: map[string]TV{}, st: State{}}
+				tv, err := env.tr(ax.E)
+				if err != nil {
+					res.Errors = append(res.Errors, fmt.Sprintf("lemmas: %s:%d: %v", ax.File, ax.Line, err))
+					continue
+				}
+				defs, err := p.defEquations(ivc, ax.E)
+				if err != nil {
+					res.Errors = append(res.Errors, fmt.Sprintf("lemmas: %s:%d: %v", ax.File, ax.Line, err))
+					continue
+				}
+				ivc.rootAssum = append(ivc.rootAssum, defs...)
+				lbl := ax.Label
+				if lbl == "" {
+					lbl = fmt.Sprint(i)
+				}
+				o := &Oblig{Name: "lemmas/" + lbl, Kind: "lemma", Props: ax.Props, Guard: "R0", Goal: tv.T, Clause: ax.Src, Where: fmt.Sprintf("%s:%d", ax.File, ax.Line)}
+				ivc.oblige(o)
+				if prop != "" && !hasProp(o.Props, prop) {
+					continue
+				}
+				if p.oblRe != nil && !p.oblRe.MatchString(o.Name) {
+					continue
+				}
+				if !containsStr(res.Functions, "lemmas") {
+					res.Functions = append(res.Functions, "lemmas")
+				}
+				iprelude := ivc.prelude(p.cs.RawSMT)
+				axioms := p.axiomsForLemma(ivc, o)
+				jobs = append(jobs, func() *Verdict { return pr.dischargeInduct(ivc, o, iprelude, axioms) })
+				continue
+			}
 			env := &SpecEnv{vc: lvc, vars: map[string]TV{}, st: State{}}
 			body := ax.E
 			// an outermost universal quantifier is replaced by fresh constants (the goal becomes quantifier-free,
@@ -311,7 +349,9 @@ func (p *Program) prove(pr *Prover, re *regexp.Regexp, prop string, verbose bool
 			lvc.oblige(&Oblig{Name: "lemmas/" + lbl, Kind: "lemma", Props: ax.Props, Guard: "R0", Goal: tv.T, Clause: ax.Src, Where: fmt.Sprintf("%s:%d", ax.File, ax.Line)})
 		}
 		if len(lvc.obligs) > 0 {
-			res.Functions = append(res.Functions, "lemmas")
+			if !containsStr(res.Functions, "lemmas") {
+				res.Functions = append(res.Functions, "lemmas")
+			}
 			lvc.rootAssum = append(lvc.rootAssum, lvc.unfoldInstances()...)
 			prelude := lvc.prelude(p.cs.RawSMT)
 			for _, o := range lvc.obligs {
@@ -402,9 +442,12 @@ func (p *Program) prove(pr *Prover, re *regexp.Regexp, prop string, verbose bool
 	return res
 }
 
+// tags that are not property ids: tier / proof-method / visibility markers of a clause
+var pseudoTag = map[string]bool{"thorough": true, "scoped": true, "induct": true}
+
 func hasProp(props []string, p string) bool {
 	for _, q := range props {
-		if q == p || (q == "*" && p != "thorough") {
+		if q == p || (q == "*" && !pseudoTag[p]) {
 			return true
 		}
 	}
@@ -425,11 +468,41 @@ func (p *Program) axiomsFor(vc *VC) []string {
 			if included[idx] {
 				continue
 			}
+			if ax.Kind == "lemma" && !hasTriggers(ax.E) {
+				// a lemma without explicit triggers is a theorem in its own right (symmetry of the matching rule, ...),
+				// not written for use by E-matching: it is not handed to the VCs (auto-selected patterns over pairs of
+				// terms instantiate quadratically)
+				continue
+			}
 			// only include axioms that mention a symbol used by the VC or by an axiom already included
 			used := false
+			occurs := func(sym string) bool {
+				return strings.Contains(text, "("+sym+" ") || strings.Contains(text, " "+sym+")") || strings.Contains(text, " "+sym+" ")
+			}
 			for _, sym := range axiomSymbols(ax.E) {
-				if strings.Contains(text, "("+sym+" ") || strings.Contains(text, " "+sym+")") || strings.Contains(text, " "+sym+" ") {
+				if occurs(sym) {
 					used = true
+				}
+			}
+			if used {
+				// an axiom with explicit triggers can only be instantiated when, for one of its triggers, every opaque
+				// spec function of the trigger occurs: otherwise it is dead weight (and drags its own symbols in)
+				if q, ok := ax.E.(*EQuant); ok && len(q.Triggers) > 0 {
+					canFire := false
+					for _, trig := range q.Triggers {
+						all := true
+						for _, te := range trig {
+							for _, sym := range axiomSymbols(te) {
+								if f, isFn := p.cs.SpecFns[sym]; isFn && f.SMT == "" && !occurs(sym) {
+									all = false
+								}
+							}
+						}
+						if all {
+							canFire = true
+						}
+					}
+					used = canFire
 				}
 			}
 			if !used {
@@ -457,12 +530,24 @@ func (p *Program) axiomsFor(vc *VC) []string {
 	return out
 }
 
-// axiomsForLemma: a lemma is proved from the axioms (definitions) only, never from other lemmas.
+func hasTriggers(e Expr) bool {
+	q, ok := e.(*EQuant)
+	return ok && len(q.Triggers) > 0
+}
+
+// axiomsForLemma: a lemma is proved from the axioms (definitions) and from the lemmas stated BEFORE it in the
+// contract files (no circularity: a lemma never sees itself or a later one).
 func (p *Program) axiomsForLemma(vc *VC, o *Oblig) []string {
 	var out []string
-	for _, ax := range p.cs.Axioms {
-		if ax.Kind != "axiom" {
-			continue
+	self := len(p.cs.Axioms)
+	for i, ax := range p.cs.Axioms {
+		if ax.Kind == "lemma" && fmt.Sprintf("%s:%d", ax.File, ax.Line) == o.Where {
+			self = i
+		}
+	}
+	for i, ax := range p.cs.Axioms {
+		if ax.Kind != "axiom" && !(ax.Kind == "lemma" && i < self && hasTriggers(ax.E)) {
+			continue // (only lemmas written for E-matching, i.e. with explicit triggers, are handed on)
 		}
 		env := &SpecEnv{vc: vc, vars: map[string]TV{}, st: State{}}
 		tv, err := env.tr(ax.E)
@@ -472,6 +557,63 @@ func (p *Program) axiomsForLemma(vc *VC, o *Oblig) []string {
 		out = append(out, tv.T)
 	}
 	return out
+}
+
+func containsStr(l []string, x string) bool {
+	for _, y := range l {
+		if y == x {
+			return true
+		}
+	}
+	return false
+}
+
+// defEquations: the recursive definitions reachable from e, each as a universally quantified equation.
+func (p *Program) defEquations(vc *VC, e Expr) ([]string, error) {
+	seen := map[string]bool{}
+	var order []string
+	var visit func(e Expr)
+	visit = func(e Expr) {
+		for _, sym := range axiomSymbols(e) {
+			if seen[sym] {
+				continue
+			}
+			seen[sym] = true
+			if pd, ok := p.cs.Preds[sym]; ok {
+				visit(pd.Body)
+			}
+			if f, ok := p.cs.SpecFns[sym]; ok && f.Body != nil {
+				order = append(order, sym)
+				visit(f.Body)
+			}
+		}
+	}
+	visit(e)
+	sort.Strings(order)
+	var out []string
+	for _, name := range order {
+		f := p.cs.SpecFns[name]
+		vars := map[string]TV{}
+		var bound, ts []string
+		for _, prm := range f.Params {
+			ty, err := p.u.tyOfTypeExpr(prm.Ty, p.cs)
+			if err != nil {
+				return nil, err
+			}
+			bn := fmt.Sprintf("%s$%d", prm.Name, vc.nextBound())
+			vars[prm.Name] = TV{bn, ty}
+			bound = append(bound, "("+bn+" "+ty.Sort()+")")
+			ts = append(ts, bn)
+		}
+		env := &SpecEnv{vc: vc, vars: vars, st: State{}}
+		body, err := env.tr(f.Body)
+		if err != nil {
+			return nil, err
+		}
+		lhs := "(" + name + " " + strings.Join(ts, " ") + ")"
+		out = append(out, fmt.Sprintf("(forall (%s) (! (= %s %s) :pattern (%s)))", strings.Join(bound, " "), lhs, body.T, lhs))
+	}
+	return out, nil
 }
 
 func axiomSymbols(e Expr) []string {
@@ -606,7 +748,7 @@ func (p *Program) oblFor(o *Oblig, fn *ssa.Function, prop string) bool {
 			star = true
 		}
 	}
-	if !star || prop == "thorough" {
+	if !star || pseudoTag[prop] {
 		return false
 	}
 	if prop == "C03" || prop == "C13" {
